@@ -21,4 +21,41 @@ O(id='ber_fetch_tag', props=['C02', 'C03', 'C04', 'C05'],
   units=[SK + 'ber_tlv_tag.c'], include=['contracts/ber_tlv_tag.h'],
   enforce=['ber_fetch_tag'], loops=True, min_props=40, timeout=300)
 
+# ---------------------------------------------------------------- C16: INTEGER conversions
+INT = dict(harness='harness/int_conv.c', units=[SK + 'INTEGER.c'], include=['contracts/INTEGER.h'],
+           native_units=[SK + f for f in ()], backends=['cvc5', 'sat'])
+O(id='asn_imax2INTEGER', props=['C16', 'C14'], kind='width', entry='h_imax2INTEGER', enforce=['asn_imax2INTEGER'],
+  unwind=10, bound='loops bounded by sizeof(intmax_t)=8 (unwind 10, unwinding assertions)',
+  cbmc=['--malloc-may-fail', '--malloc-fail-null', '--memory-leak-check'], min_props=40, **INT)
+O(id='asn_long2INTEGER', props=['C16'], kind='width', entry='h_long2INTEGER', proves=['asn_long2INTEGER', 'asn_INTEGER2long'],
+  functions=['asn_long2INTEGER', 'asn_INTEGER2long'], unwind=10, bound='8 octets',
+  cbmc=['--malloc-may-fail', '--malloc-fail-null', '--memory-leak-check'], min_props=40, **INT)
+O(id='asn_umax2INTEGER', props=['C16', 'C14'], kind='width', entry='h_umax2INTEGER', enforce=['asn_umax2INTEGER'],
+  unwind=11, bound='loops bounded by sizeof(uintmax_t)+1=9 (unwind 11, unwinding assertions)',
+  cbmc=['--malloc-may-fail', '--malloc-fail-null', '--memory-leak-check'], min_props=40, **INT)
+O(id='asn_ulong2INTEGER', props=['C16'], kind='width', entry='h_ulong2INTEGER', proves=['asn_ulong2INTEGER', 'asn_INTEGER2ulong'],
+  functions=['asn_ulong2INTEGER', 'asn_INTEGER2ulong'], unwind=11, bound='9 octets',
+  cbmc=['--malloc-may-fail', '--malloc-fail-null', '--memory-leak-check'], min_props=40, **INT)
+
+O(id='asn__integer_convert', props=['C16', 'C04'], kind='width', entry='h_integer_convert', enforce=['asn__integer_convert'],
+  unwind=10, bound='<= 8 octets (requires clause; callers pass at most sizeof(intmax_t))', min_props=20, **INT)
+B24 = 'octet strings of at most 24 octets (16 redundant leading octets); loops unwound 26 times with unwinding assertions'
+O(id='asn_INTEGER2imax.b24', props=['C16', 'C04'], kind='bounded', entry='h_INTEGER2imax', enforce=['asn_INTEGER2imax'],
+  unwind=26, bound=B24, min_props=40, **INT)
+O(id='asn_INTEGER2umax.b24', props=['C16', 'C04'], kind='bounded', entry='h_INTEGER2umax', enforce=['asn_INTEGER2umax'],
+  unwind=26, bound=B24, min_props=40, **INT)
+O(id='asn_INTEGER2long.b24', props=['C16'], kind='bounded', entry='h_INTEGER2long', functions=['asn_INTEGER2long'],
+  unwind=26, bound=B24, min_props=40, **INT)
+O(id='asn_INTEGER2ulong.b24', props=['C16'], kind='bounded', entry='h_INTEGER2ulong', functions=['asn_INTEGER2ulong'],
+  unwind=26, bound=B24, min_props=40, **INT)
+
+T7 = 'bounded stand-in: every text of <= 7 characters against a reference reading (loops unwound, unwinding assertions)'
+TE = 'bounded stand-in: every text [sign][0] + {MAX/10-1, MAX/10, MAX/10+1} + <= 3 arbitrary characters, i.e. the neighbourhood of the overflow boundary (18 concrete prefixes x 3 symbolic characters)'
+INT_SAT = dict(INT, backends=['sat'])
+for _f, _e in (('asn_strtoimax_lim', 'h_strtoimax'), ('asn_strtoumax_lim', 'h_strtoumax'), ('asn_strtol_lim', 'h_strtol'), ('asn_strtoul_lim', 'h_strtoul')):
+    O(id=_f + '.t7', props=['C16', 'C04'], kind='bounded', entry=_e + '_t7', functions=[_f], unwind=10, bound=T7,
+      defines=['VF_MAXTXT=8'], min_props=30, timeout=600, **INT_SAT)
+    O(id=_f + '.edge', props=['C16', 'C04'], kind='bounded', entry=_e + '_edge', functions=[_f], unwind=30, bound=TE,
+      min_props=30, timeout=1500, tier='experimental', **INT_SAT)
+
 UNVERIFIED = {}
